@@ -362,7 +362,13 @@ def _is_versioned_type_dir(type_path, type_name):
     )
 
     for entry in os.listdir(type_path):
-        s = os.stat(os.path.join(type_path, entry))
+        try:
+            s = os.stat(os.path.join(type_path, entry))
+        except OSError as e:
+            if e.errno != errno.ENOENT:
+                raise
+            # else, file-not-found is ok, just skip
+            continue
         if stat.S_ISDIR(s.st_mode) and id_regex.match(entry):
             is_versioned = True
             break
